@@ -289,7 +289,9 @@ def main():
                 elif kind == "del":
                     if not is_struct:
                         continue
-                    key = rng.choice(list(target._dict) + ["nope"]) if target._dict else "nope"
+                    # by the stored (quoted) key, by the raw spelling of a name that needs quoting (refused: KeyError, nothing changes),
+                    # or by a name that is not there
+                    key = rng.choice(list(target._dict) + [unq(k_) for k_ in target._dict] + ["nope"]) if target._dict else "nope"
                     opc = "(ODel %d %s %s)" % (h, clist(path, cchars), cchars(key))
                     try:
                         del target[key]
@@ -425,12 +427,19 @@ def main():
                 _, h, path = op
                 roots.append(copy.copy(node_at(roots[h], path)))
                 opc = "(OCopy %d %s)" % (h, clist(path, cchars))
+            elif k == "del":
+                _, h, path, key = op
+                try:
+                    del node_at(roots[h], path)[key]
+                except KeyError:
+                    pass
+                opc = "(ODel %d %s %s)" % (h, clist(path, cchars), cchars(key))
             elif k == "attr":
                 _, h, path, key, v = op
                 node_at(roots[h], path).attributes[key] = v
                 opc = "(OAttr %d %s %s %d%%N)" % (h, clist(path, cchars), cchars(key), v)
             hist.append("(%s, %s)" % (opc, clist(roots, lambda o: snapshot(o, tok))))
-            if k in ("attr", "set"):
+            if k in ("attr", "set", "del"):
                 for i, (b, a) in enumerate(zip(before, [plain(x) for x in roots])):
                     if i != op[1] and b != a and len(direct) < 20:
                         direct.append({"law": "editing one object changed another", "edited_handle": op[1], "changed_handle": i,
@@ -457,6 +466,14 @@ def main():
         [("set", 0, [], "B", "x"), ("set", 0, [], "S", "s"), ("set", 0, ["s"], "B", "a"), ("attr", 0, [], "units", 7), ("copy", 0, []),
          ("attr", 2, [], "long name", 3), ("attr", 0, [], "x", 9), ("select", 0, [], ["s"]), ("attr", 3, [], "units", 11),
          ("attr", 0, [], "units", 12), ("attr", 1, [], "units", 5), ("copy", 1, []), ("attr", 4, [], "x", 6), ("attr", 1, [], "units", 8)],
+        # deleting by the raw spelling of a name that needs quoting is refused and changes nothing; by the stored key it deletes
+        [("set", 0, [], "S", "s"), ("set", 0, ["s"], "B", "a b"), ("set", 0, ["s"], "B", "c"), ("del", 0, ["s"], "a b"),
+         ("copy", 0, []), ("del", 0, ["s"], "a%20b"), ("set", 0, ["s"], "B", "a b"), ("del", 0, ["s"], "nope"), ("copy", 0, ["s"])],
+        # two selections taken from one narrowed selection re-expose its hidden children: they share no structure
+        [("set", 0, [], "S", "s"), ("set", 0, ["s"], "B", "a"), ("set", 0, ["s"], "S", "h"), ("set", 0, ["s", "h"], "B", "p"),
+         ("set", 0, ["s"], "B", "c"), ("select", 0, ["s"], ["c"]), ("select", 2, [], ["a", "h", "c"]), ("select", 2, [], ["a", "h"]),
+         ("attr", 3, ["h"], "units", 4), ("set", 3, ["h"], "B", "q"), ("attr", 4, ["a"], "x", 2), ("del", 4, ["h"], "p"),
+         ("copy", 2, []), ("select", 5, [], ["h"]), ("attr", 6, ["h"], "units", 9), ("attr", 2, ["c"], "units", 1)],
     ]
     for sc in corpus:
         try:
